@@ -14,6 +14,10 @@ pub mod collections;
 
 mod alloc;
 
+#[cfg(bumpalo_verif)]
+#[doc(hidden)]
+pub mod __verif;
+
 use core::cell::Cell;
 use core::cmp::Ordering;
 use core::fmt::Display;
@@ -987,6 +991,8 @@ impl<const MIN_ALIGN: usize> Bump<MIN_ALIGN> {
                 is_pointer_aligned_to(cur_chunk.as_ptr(), MIN_ALIGN),
                 "bump pointer {cur_chunk:#p} should be aligned to the minimum alignment of {MIN_ALIGN:#x}"
             );
+            #[cfg(bumpalo_verif)]
+            crate::__verif::footer_store(cur_chunk.as_ptr() as usize, crate::__verif::SITE_RESET);
             cur_chunk.as_ref().ptr.set(cur_chunk.cast());
 
             // Reset the allocated size of the chunk.
@@ -1227,6 +1233,8 @@ impl<const MIN_ALIGN: usize> Bump<MIN_ALIGN> {
                         // to its original value upon entry to this method
                         // (reclaiming any alignment padding we may have
                         // added).
+                        #[cfg(bumpalo_verif)]
+                        crate::__verif::footer_store(current_footer_p.as_ptr() as usize, crate::__verif::SITE_REWIND_SAME);
                         current_ptr.set(rewind_ptr);
                     } else {
                         // We allocated a new chunk for this result.
@@ -1244,6 +1252,8 @@ impl<const MIN_ALIGN: usize> Bump<MIN_ALIGN> {
                         // Because this is the only allocation in this chunk,
                         // we can reset the chunk's bump finger to the start of
                         // the chunk.
+                        #[cfg(bumpalo_verif)]
+                        crate::__verif::footer_store(current_footer_p.as_ptr() as usize, crate::__verif::SITE_REWIND_NEW);
                         current_ptr.set(current_footer_p.as_ref().data);
                     }
                 }
@@ -1335,6 +1345,8 @@ impl<const MIN_ALIGN: usize> Bump<MIN_ALIGN> {
                         // to its original value upon entry to this method
                         // (reclaiming any alignment padding we may have
                         // added).
+                        #[cfg(bumpalo_verif)]
+                        crate::__verif::footer_store(current_footer_p.as_ptr() as usize, crate::__verif::SITE_REWIND_SAME);
                         current_ptr.set(rewind_ptr);
                     } else {
                         // We allocated a new chunk for this result.
@@ -1352,6 +1364,8 @@ impl<const MIN_ALIGN: usize> Bump<MIN_ALIGN> {
                         // Because this is the only allocation in this chunk,
                         // we can reset the chunk's bump finger to the start of
                         // the chunk.
+                        #[cfg(bumpalo_verif)]
+                        crate::__verif::footer_store(current_footer_p.as_ptr() as usize, crate::__verif::SITE_REWIND_NEW);
                         current_ptr.set(current_footer_p.as_ref().data);
                     }
                 }
@@ -1975,6 +1989,8 @@ impl<const MIN_ALIGN: usize> Bump<MIN_ALIGN> {
             debug_assert!(!aligned_ptr.is_null());
             let aligned_ptr = NonNull::new_unchecked(aligned_ptr);
 
+            #[cfg(bumpalo_verif)]
+            crate::__verif::footer_store(footer_ptr.as_ptr() as usize, crate::__verif::SITE_FAST);
             footer.ptr.set(aligned_ptr);
             Some(aligned_ptr)
         }
@@ -2238,6 +2254,8 @@ impl<const MIN_ALIGN: usize> Bump<MIN_ALIGN> {
                 "bump pointer {ptr:#p} should be aligned to the minimum alignment of {MIN_ALIGN:#x}"
             );
             let ptr = NonNull::new_unchecked(ptr);
+            #[cfg(bumpalo_verif)]
+            crate::__verif::footer_store(self.current_chunk_footer.get().as_ptr() as usize, crate::__verif::SITE_DEALLOC);
             self.current_chunk_footer.get().as_ref().ptr.set(ptr);
         }
     }
@@ -2324,6 +2342,8 @@ impl<const MIN_ALIGN: usize> Bump<MIN_ALIGN> {
                 is_pointer_aligned_to(new_ptr.as_ptr(), MIN_ALIGN),
                 "bump pointer {new_ptr:#p} should be aligned to the minimum alignment of {MIN_ALIGN:#x}"
             );
+            #[cfg(bumpalo_verif)]
+            crate::__verif::footer_store(footer as *const ChunkFooter as usize, crate::__verif::SITE_SHRINK);
             footer.ptr.set(new_ptr);
 
             // NB: we know it is non-overlapping because of the size check
